@@ -308,7 +308,11 @@ class Parser:
                 e = self.postfix()
                 body = self.block()
                 if self.peek() == "else":
-                    raise Fail("if let with else")
+                    # if let .. { .. } else { .. } as the value of the block
+                    self.eat()
+                    els = self.block()
+                    self.eat("}")
+                    return ("block", stmts, ("value", ("ifletexpr", pat, e, body, els)))
                 stmts.append(("iflet", pat, e, body))
                 continue
             if tok == "match":
@@ -838,6 +842,8 @@ class Gen:
                 return True
             if recv == ("var", "self") and m in self.selfmethods:
                 return True
+            if m == "take" and not args and recv[0] == "field" and recv[1] == ("var", "self"):
+                return True
             if self.stateful_recv(recv) and m not in ("len", "is_empty"):
                 return True
             if self.stateful_chain(x) is not None and not self.stateful_recv(recv):
@@ -923,6 +929,15 @@ class Gen:
                     return ("let %s := %s in\nmatch %s with\n| VC \"Some\" [%s] =>\n%s\n| VC \"None\" [] =>\n%s\n| _ => %s\nend" % (
                         r, v, r, sv, k(env2, sv), self.ev(cbody, env2, k), self.stuck(env2)))
                 return self.ev(recv, env, after)
+            if m == "take" and not args and recv[0] == "field" and recv[1] == ("var", "self"):
+                # Option::take on a field of self: its value, and None left behind
+                if "self" not in self.threaded:
+                    raise Fail("take() on a field of self in a function that does not take &mut self")
+                n, v = self.fresh("self"), self.fresh("taken")
+                env2 = dict(env)
+                env2["self"] = n
+                return "let %s := v_field %s %s in\nlet %s := v_set %s (VC \"None\" []) %s in\n%s" % (
+                    v, cstr(recv[2]), env["self"], n, cstr(recv[2]), env["self"], k(env2, v))
             if recv == ("var", "self") and m in self.selfmethods:
                 n, v = self.fresh("self"), self.fresh("v")
                 env2 = dict(env)
